@@ -1035,7 +1035,9 @@ def classify(diags, text_lines, linemap):
         tags, labels = [], []
         src_refs = []
         clause_origin = None
-        for sp in spans:
+        # primary spans first: the tag of the failed clause itself must win over tags that merely sit
+        # inside a secondary span (e.g. "at the end of the function body" covers every body line)
+        for sp in sorted(spans, key=lambda x: 0 if x.get('is_primary') else 1):
             for ln in range(sp['line_start'], sp['line_end'] + 1):
                 info = linemap.get(ln)
                 if info:
